@@ -713,6 +713,12 @@ func (a *nilAn) callNonNil(c *ssa.Call, idx int, at ssa.Instruction, depth int) 
 	if a.mayRetNil[g][idx] {
 		return false
 	}
+	if _, paired := a.nilOnlyWithErr[g][idx]; paired {
+		return false // only non-nil where the companion error was tested (pairedNonNil)
+	}
+	if _, paired := a.nilOnlyWithInvalid[g][idx]; paired {
+		return false
+	}
 	if k, ok := a.nilIffParam[g][idx]; ok {
 		if k >= len(cc.Args) || !a.nonNil(cc.Args[k], c, depth+1) {
 			return false
